@@ -11,7 +11,7 @@ use crate::{catch, Args, Report};
 type Mm = BTreeMap<u8, Vec<u8>>;
 
 /// Uniform view of one index type with u8 keys and values.
-trait Ix: Default {
+pub trait Ix: Default {
    const NAME: &'static str;
    /// values under a key form a set
    const SET_VALUED: bool = false;
@@ -185,7 +185,7 @@ impl Ix for CRelNoIndex<(u8,)> {
 }
 
 #[derive(Clone, Debug)]
-enum Op {
+pub enum Op {
    Insert(u8, u8),
    InsertShared(u8, u8),
    InsertIfAbsent(u8, u8),
@@ -247,14 +247,14 @@ fn check_reads<T: Ix>(what: &str, ix: &T, m: &Mm, ops: &[Op], step: usize) -> Re
    Ok(())
 }
 
-struct Outcome {
-   merges: usize,
-   swap_path: bool,
-   no_swap_path: bool,
-   both_sides_key: bool,
+pub struct Outcome {
+   pub merges: usize,
+   pub swap_path: bool,
+   pub no_swap_path: bool,
+   pub both_sides_key: bool,
 }
 
-fn run_history<T: Ix>(ops: &[Op]) -> Result<Outcome, String> {
+pub fn run_history<T: Ix>(ops: &[Op]) -> Result<Outcome, String> {
    // all three versions are created in the same pool, as generated code does
    let (mut new, mut delta, mut total) = (T::default(), T::default(), T::default());
    let (mut mn, mut md, mut mt): (Mm, Mm, Mm) = Default::default();
@@ -525,4 +525,18 @@ pub fn run(a: &Args, rep: &mut Report) {
    run_type::<CRelNoIndex<(u8,)>>(a, rep, cases);
    concurrent_rounds(a, rep, if a.tier == "quick" { 400 } else { 6000 });
    rep.notes.push("RelIndexCombined is exercised over (total, delta) of every type; all three versions of a type are created in one pool".into());
+}
+
+/// the eight index types by number (fuzz targets and replays)
+pub fn history_by_type(t: u8, ops: &[Op]) -> Result<Outcome, String> {
+   match t % 8 {
+      0 => run_history::<RelIndexType1<(u8,), (u8,)>>(ops),
+      1 => run_history::<LatticeIndexType<(u8,), (u8,)>>(ops),
+      2 => run_history::<RelFullIndexType<(u8,), u8>>(ops),
+      3 => run_history::<RelNoIndexType>(ops),
+      4 => run_history::<CRelIndex<(u8,), (u8,)>>(ops),
+      5 => run_history::<CLatIndex<(u8,), (u8,)>>(ops),
+      6 => run_history::<CRelFullIndex<(u8,), u8>>(ops),
+      _ => run_history::<CRelNoIndex<(u8,)>>(ops),
+   }
 }
